@@ -661,7 +661,8 @@ def run_shard(job: dict[str, Any]) -> dict[str, Any]:
                 msh = int(cfgd.get("max_speculative_hedges", 4))
                 nchunks = -(-int(case["body"]["size"]) // max(1, int(cfgd["chunk_size_bytes"])))
                 # 0 is documented as "unlimited": then every chunk can still be hedged at most once
-                if dup_any > attempts * (msh if msh > 0 else nchunks):
+                # (a redirected range request reaches the origins twice by design: scripts with redirects are not judged here)
+                if not case["obj"].get("redirect") and dup_any > attempts * (msh if msh > 0 else nchunks):
                     chk.violation(
                         "hedge_requests_exceed_max_speculative_hedges",
                         f"{dup_any} repeated range requests in one fetch with max_speculative_hedges={cfgd.get('max_speculative_hedges')}",
